@@ -65,6 +65,12 @@ type EvoScenario struct {
 	// coarseFitness (C17): the deterministic fitness function takes five values only
 	coarseFitness bool
 	modular       bool // a modular start genome with crossovers (C17 only)
+	// switchThreshold: the copy of the options that takes over at SwitchOptsAt has another compatibility threshold as well (C08)
+	switchThreshold bool
+	// ownContext: the executor is handed the context the options object gives out itself (Options.NeatContext)
+	ownContext bool
+	// genesShuffled: the start genome lists its connection genes out of innovation order (C17 only)
+	genesShuffled bool
 	// SwitchOptsAt > 0: from the epoch with this index on the executor (the same object) is handed a context that carries
 	// another Options object: a by-value copy with the survival threshold, age significance, drop-off age and stolen babies changed
 	SwitchOptsAt int
@@ -260,6 +266,9 @@ func runScenario(c *Ctx, sc *EvoScenario, mon EvoMonitor) {
 		ex = &genetics.SequentialPopulationEpochExecutor{}
 	}
 	ctx := neat.NewContext(context.Background(), sc.Opts)
+	if sc.ownContext {
+		ctx = sc.Opts.NeatContext()
+	}
 	for gen := 0; gen < sc.Epochs; gen++ {
 		if sc.RestoreAt > 0 && gen == sc.RestoreAt {
 			// store and restore: the monitors meet the restored population as a newly constructed one (their history-long
@@ -285,8 +294,14 @@ func runScenario(c *Ctx, sc *EvoScenario, mon EvoMonitor) {
 			tuned.AgeSignificance = 1 + c.G.Float64()
 			tuned.DropOffAge = 1 + c.G.Intn(20)
 			tuned.BabiesStolen = pick(c.G, 0, 2, tuned.PopSize/4)
+			if sc.switchThreshold {
+				tuned.CompatThreshold = sc.Opts.CompatThreshold * pick(c.G, 0.5, 0.8, 1.5)
+			}
 			sc.Opts = &tuned
 			ctx = neat.NewContext(context.Background(), sc.Opts)
+			if gen%2 == 0 {
+				ctx = sc.Opts.NeatContext() // the context the options hand out themselves
+			}
 			c.Count("scenarios.options_object_switched", 1)
 		}
 		assignFitness(c.G, sc.Fitness, gen, pop)
